@@ -252,11 +252,11 @@ class Stage:
                             "".join(traceback.format_exception(type(e), e, e.__traceback__))[-2500:])
 
 
-def new_renderer(draw_params=None):
+def new_renderer(draw_params=None, **kw):
     fig = Figure(figsize=FIGSIZE, dpi=DPI)
     FigureCanvasAgg(fig)
     ax = fig.add_subplot(111)
-    return fig, MPRenderer(draw_params=draw_params, ax=ax)
+    return fig, MPRenderer(draw_params=draw_params, ax=ax, **kw)
 
 
 def build_or_discard(scene, ctx):
@@ -349,7 +349,14 @@ def s_totality(family):
             scene = rs.scene(max_lanelets=2, max_obstacles=1, map_extras=False).filter(lambda r: r["pps"])
         else:
             scene = rs.scene(max_lanelets=5, max_obstacles=5 if not big else 5)
-        return st.fixed_dictionaries({"scene": scene, "params": s_params(prefixes)})
+        lim = st.one_of(st.none(), st.none(), st.just("auto"),
+                        st.tuples(st.integers(-60, 0), st.integers(1, 60), st.integers(-60, 0), st.integers(1, 60)).map(list),
+                        st.tuples(st.integers(-60, 0), st.integers(1, 60), st.integers(-60, 0), st.integers(1, 60)).map(
+                            lambda t: [[t[0], t[1]], [t[2], t[3]]]))
+        return st.fixed_dictionaries({"scene": scene, "params": s_params(prefixes),
+                                      "renderer": st.fixed_dictionaries({"plot_limits": lim,
+                                                                         "focus": st.one_of(st.none(), st.none(),
+                                                                                            st.integers(0, 4))})})
     return strat
 
 
@@ -360,7 +367,16 @@ def check_totality(r, ctx):
         sc, pps = build_or_discard(scene, ctx)
         stage = Stage()
         mp = stage.run("params", lambda: make_params(p))
-        fig, rnd = new_renderer(mp if p["form"] == "renderer" else None)
+        kw = {}
+        ro = r.get("renderer") or {}
+        if ro.get("plot_limits") is not None:
+            kw["plot_limits"] = ro["plot_limits"]
+            ctx.label("plot-limits-" + ("auto" if ro["plot_limits"] == "auto" else "given"))
+        dyn = [o for o in sc.obstacles if isinstance(o, DynamicObstacle)]
+        if ro.get("focus") is not None and dyn:
+            kw["focus_obstacle"] = dyn[ro["focus"] % len(dyn)]      # the plot is centred on this obstacle
+            ctx.label("focus-obstacle")
+        fig, rnd = stage.run("renderer", lambda: new_renderer(mp if p["form"] == "renderer" else None, **kw))
         draw_everything(rnd, sc, pps, mp, p, stage)
         finish(fig, rnd, stage)
         if p.get("again"):
